@@ -385,13 +385,13 @@ func (vc *VC) binop(s *State, n ast.Node, o token.Token, l, r *Term, lt, rt, res
 			c := strConcat(l, r)
 			return c
 		case token.LSS:
-			return App("str.lt", SBool, l, r)
+			return App("sx.lt", SBool, l, r)
 		case token.GTR:
-			return App("str.lt", SBool, r, l)
+			return App("sx.lt", SBool, r, l)
 		case token.LEQ:
-			return Or(App("str.lt", SBool, l, r), Eq(l, r))
+			return Or(App("sx.lt", SBool, l, r), Eq(l, r))
 		case token.GEQ:
-			return Or(App("str.lt", SBool, r, l), Eq(l, r))
+			return Or(App("sx.lt", SBool, r, l), Eq(l, r))
 		}
 		vc.unsupported(n, "string op "+o.String())
 	}
